@@ -8,7 +8,7 @@ import (
 
 // C09: the will.
 func C09(c *core.Ctx) {
-	c.Rep.Bound = "HIST: connect variants (no will / will with QoS 0-2, retain, two topics, empty/short/200-byte payload, CleanSession 0/1) x end causes (DISCONNECT, cut, garbage packet, keep-alive expiry in virtual time) x reconnects of one client id, with a witness subscribed to '#' and a late subscriber; BFS de-duplicated on model + implementation state, depth 6 (quick) / 8 (thorough), and every sequence without de-duplication to depth 4 (quick) / 5 (thorough); SCHED: a client with a will (QoS 0 / QoS 1 retained) sends its last bytes (DISCONNECT, PUBLISH+DISCONNECT in one or two segments, PUBLISH only, PUBLISH + half a packet, PUBLISH + reserved type) and closes at once, every schedule of the broker goroutines up to 2 (quick) / 3 (thorough) deviations"
+	c.Rep.Bound = "HIST: connect variants (no will / will with QoS 0-2, retain, two topics, empty/short/200-byte payload, CleanSession 0/1) x end causes (DISCONNECT, cut, garbage packet, keep-alive expiry in virtual time) x reconnects of one client id, with a witness subscribed to '#' and a late subscriber; BFS de-duplicated on model + implementation state, depth 6 (quick) / 8 (thorough), and every sequence without de-duplication to depth 4 (quick) / 5 (thorough); ENUM: every hostile byte stream of C05 (corpus packets, truncations, single-byte corruptions; alone and behind a PUBLISH) as the last bytes of a connection with a will, then a cut: never two wills, exactly one unless a DISCONNECT may have been processed, none after a well-formed DISCONNECT behind ordinary packets; SCHED: a client with a will (QoS 0 / QoS 1 retained) sends its last bytes (DISCONNECT, PUBLISH+DISCONNECT in one or two segments, PUBLISH only, PUBLISH + half a packet, PUBLISH + reserved type) and closes at once, every schedule of the broker goroutines up to 2 (quick) / 3 (thorough) deviations"
 	c.Rep.Rule = "after every action the witness must have received exactly the will of the connection that just ended abnormally (topic, payload, QoS, retain as in that connection's CONNECT) and nothing after a DISCONNECT; retained wills must reach a later subscriber"
 	cx := func(clean bool, w *Will) Action {
 		return Action{Kind: "connect", Client: "X", Opts: ConnectOpts{ClientID: "a", Clean: clean, KeepAlive: 10, Will: w}}
@@ -51,6 +51,10 @@ func C09(c *core.Ctx) {
 	}
 	seq := &HistSpec{Name: "will-sequences", Ops: ops, Depth: sd, Dedup: false, Comps: spec.Comps, Prefix: spec.Prefix}
 	seq.Search(c)
+	if c.HasViolation() || c.Expired() {
+		return
+	}
+	c09hostile(c)
 	if c.HasViolation() || c.Expired() {
 		return
 	}
